@@ -411,7 +411,7 @@ func TestVerifC10Tasks(t *testing.T) {
 	}
 	depth := 4
 	if ev.Thorough() {
-		depth = 6
+		depth = 5 // (15 specification shapes + pause: depth 6 no longer fits the thorough budget)
 	}
 	res.Bounds["depth"] = depth
 	res.Rule = fmt.Sprintf("BFS over histories of {create(spec) for %d specification shapes (legacy a|b|*, db in {default, db1, *} x collection in {a, *}, with user-role flag, with name mapping, with auto start disabled), create with the n-th store call failing (n=1..6), delete(task i), pause(task i), restart} on one target with at most 3 tasks; each history replayed on a fresh real MetaCDC over the real etcd stores on fakeetcd; after every operation: accepted = persisted = in-memory task set, for every (db, collection) in {default, db1, db2} x {a, b, c} at most one task selects it, each task selects its specification minus its exclusions, data path and DDL path agree, a rejected request leaves bookkeeping and store byte-identical, live bookkeeping (as sets) equals a fresh reload of a copy of the store; states deduplicated on bookkeeping + persisted tasks; non-trivial = states reached through a rejected request or containing exclusions", len(c10Specs))
@@ -439,6 +439,14 @@ func TestVerifC10Tasks(t *testing.T) {
 				res.Evaluations++
 				res.Traces++
 				if r.viol != "" {
+					// the stores under test carry real-time deadlines (5 s per operation): on an overloaded machine an
+					// operation can time out, which is not behaviour of the history. A violation is reported only if the
+					// history reproduces it twice more; otherwise the history counts as not explored.
+					if r2, r3 := c10Exec(nh), c10Exec(nh); r2.viol != r.viol || r3.viol != r.viol {
+						res.Exhaustive = false
+						res.Extra["unreproduced"] = fmt.Sprintf("history %v: %.200s", nh, r.viol)
+						continue
+					}
 					kind := strings.SplitN(r.viol, ":", 2)[0]
 					res.Violate(fmt.Sprintf("C10/%s/%s", kind, op.Kind), fmt.Sprintf("history %v: %s", nh, r.viol), map[string]interface{}{"history": nh})
 					continue
